@@ -132,6 +132,30 @@ def run(ctx):
         elif reads != 1:
             ctx.fail("C12-R2", CREATE, "gv_weight reads", "self.gv_weight is read %d times" % reads, cr.loc())
 
+    # the GV statistics par() sees are the model's own: MlpgAdjust::new keeps the stream's `gv`
+    # as it is (the weight is applied once, in par - R1), and create() hands that field to par
+    nb = cm.body_or_fail(ctx, p, "C12-R1", "mlpg_adjust::MlpgAdjust::<'a>::new")
+    if nb is not None:
+        nr = ExprBuilder(nb).local(0)
+        gvv = nr[2][nr[3].index("gv")] if nr[0] == "agg" and nr[3] and "gv" in nr[3] else None
+        ms = [l for l in range(1, nb.argc + 1) if "ModelStream" in nb.local_ty(l)]
+        if gvv is not None and len(ms) == 1 and gvv == ("field", ("arg", ms[0], nb.local_name(ms[0])), "gv"):
+            ctx.ok("C12-R1", "MlpgAdjust::new keeps the stream's GV statistics unchanged (field gv = stream.gv)", nb.loc())
+        else:
+            ctx.fail("C12-R1", nb.path, "gv statistics", "MlpgAdjust::new does not store the stream's GV statistics as they are (gv = %s): a weight or scale applied here as well as in par() changes the target" % (show(gvv)[:120] if gvv else None), nb.loc())
+    if cr is not None:
+        ebc = ExprBuilder(cr)
+        pcs = []
+        for cb_ in [cr] + list(p.nested(CREATE)):
+            ceb_ = ExprBuilder(cb_)
+            for bb, t in cm.local_calls(cb_, p, exact=PAR):
+                from ..expr import resolve_upvars as _ru
+                pcs.append((cb_, cm.loc_of(t["span"]), show(_ru(p, cb_, ceb_.at(bb).op(t["args"][1])) if cb_.kind == "Closure" else ceb_.at(bb).op(t["args"][1]))))
+        if len(pcs) == 1 and pcs[0][2] == "self.gv":
+            ctx.ok("C12-R1", "create(): par() receives self.gv", pcs[0][1])
+        else:
+            ctx.fail("C12-R1", CREATE, "gv argument", "par() is called with %s as its GV statistics, expected self.gv (once)" % [x[2][:60] for x in pcs], cr.loc())
+
     # the GV weight that reaches stream k's MlpgAdjust is the condition's gv_weight[k]
     from ..expr import walk as _walk
     gen = p.body("engine::Engine::generator")
